@@ -1,5 +1,5 @@
 from harness.props import base
-from harness import preds, streams
+from harness import gens, preds, streams
 LEVEL = 'other'
 VFILES = ['Engine.v', 'Issues.v', 'Properties/C13.v']
 EXPLANATION = 'error listing: predicates (one per line, codes, ranges, required lines, purity, determinism) on implementation trees.'
@@ -14,3 +14,24 @@ def run(ctx, b, drv):
     base.mismatches(ctx, pend0, streams.run_issues(ctx, base.scale(ctx, 1500), drv), None)
     pend0.flush()
     base.std_text_check(ctx, b, drv, VFILES, ['parse'], pred, 2000, 1000, 'c13')
+    sweep(ctx)
+
+
+def sweep(ctx):
+    """every program of the INVALID and TARGETS corpora (each rule of errors.py fired or just missed; every expression shape in every target position),
+    on one grammar version per program (all nine in the thorough tier)"""
+    import parso
+    vs = streams.versions()
+    progs = gens.INVALID + gens.TARGETS
+    for i, code in enumerate(progs):
+        for v in (vs if ctx.tier != 'quick' else [vs[(i + ctx.seed) % len(vs)]]):
+            ctx.count('c13-sweep')
+            try:
+                m = parso.load_grammar(version=v).parse(code)
+                sig = pred(v, code, m)
+            except RecursionError:
+                continue
+            except Exception as e:
+                sig = preds.crash_sig(e)
+            if sig:
+                ctx.violation(sig, dict(kind='input', stream='c13-sweep', index=i, version=v, input_text=code, input_cps=[ord(c) for c in code], observed=sig))
